@@ -280,10 +280,13 @@ func (ii *invertedIndex) put(key, seriesID uint32) {
 }
 
 func (ii *invertedIndex) getSeriesIDs(key uint32) (*roaring.Bitmap, error) {
+	result := roaring.New()
+	// NOTE: read memory store before getting snapshot, flush moves entries from memory into a new file.
+	ii.findSeriesIDsByKeyFromMem(key, result)
+
 	snapshot := ii.family.GetSnapshot()
 	defer snapshot.Close()
 
-	result := roaring.New()
 	seriesIDs := roaring.New()
 	if err := snapshot.Load(key, func(value []byte) error {
 		if _, err := bitmapUnmarshal(seriesIDs, value); err != nil {
@@ -295,15 +298,20 @@ func (ii *invertedIndex) getSeriesIDs(key uint32) (*roaring.Bitmap, error) {
 	}); err != nil {
 		return nil, err
 	}
-	ii.findSeriesIDsByKeyFromMem(key, result)
 	return result, nil
 }
 
 func (ii *invertedIndex) findSeriesIDsByKeys(keys *roaring.Bitmap) (*roaring.Bitmap, error) {
+	result := roaring.New()
+	// NOTE: read memory store before getting snapshot, flush moves entries from memory into a new file.
+	memIt := keys.Iterator()
+	for memIt.HasNext() {
+		ii.findSeriesIDsByKeyFromMem(memIt.Next(), result)
+	}
+
 	snapshot := ii.family.GetSnapshot()
 	defer snapshot.Close()
 
-	result := roaring.New()
 	seriesIDs := roaring.New()
 	it := keys.Iterator()
 	for it.HasNext() {
@@ -318,7 +326,6 @@ func (ii *invertedIndex) findSeriesIDsByKeys(keys *roaring.Bitmap) (*roaring.Bit
 		}); err != nil {
 			return nil, err
 		}
-		ii.findSeriesIDsByKeyFromMem(key, result)
 	}
 	return result, nil
 }
@@ -423,14 +430,14 @@ func (fi *forwardIndex) put(tagKeyID, tagValueID, seriesID uint32) {
 }
 
 func (fi *forwardIndex) findSeriesIDsForTag(tagKeyID tag.KeyID) (*roaring.Bitmap, error) {
-	snapshot := fi.family.GetSnapshot()
-	defer snapshot.Close()
-
 	result := roaring.New()
-	// read data from mem
+	// read data from mem(before getting snapshot)
 	fi.loadSeriesIDsInMem(tagKeyID, func(tagIndex *imap.IntMap[uint32]) {
 		result.Or(tagIndex.Keys())
 	})
+
+	snapshot := fi.family.GetSnapshot()
+	defer snapshot.Close()
 
 	// read data from kv store
 	// try to get tag key id from kv store
@@ -455,12 +462,17 @@ func (fi *forwardIndex) findSeriesIDsForTag(tagKeyID tag.KeyID) (*roaring.Bitmap
 
 // GetGroupingContext returns the context of group by
 func (fi *forwardIndex) GetGroupingContext(ctx *flow.ShardExecuteContext) error {
-	snapshot := fi.family.GetSnapshot()
-	defer snapshot.Close()
-
 	scannerMap := make(map[tag.KeyID][]flow.GroupingScanner)
 	tagKeyIDs := ctx.StorageExecuteCtx.GroupByTagKeyIDs
 	seriesIDs := ctx.SeriesIDsAfterFiltering
+	// NOTE: read memory store before getting snapshot, flush moves entries from memory into a new file.
+	memScanners := make(map[tag.KeyID][]flow.GroupingScanner)
+	for _, tagKeyID := range tagKeyIDs {
+		memScanners[tagKeyID] = fi.getMemGroupingScanners(tagKeyID, seriesIDs)
+	}
+	snapshot := fi.family.GetSnapshot()
+	defer snapshot.Close()
+
 	finalSeriesIDs := seriesIDs.Clone()
 	defer func() {
 		// maybe filtering some series ids that is result of filtering.
@@ -469,7 +481,7 @@ func (fi *forwardIndex) GetGroupingContext(ctx *flow.ShardExecuteContext) error 
 	}()
 	for _, tagKeyID := range tagKeyIDs {
 		// get grouping scanners by tag key
-		scanners, err := fi.getGroupingScanners(tagKeyID, seriesIDs, snapshot)
+		scanners, err := fi.getGroupingScanners(tagKeyID, seriesIDs, snapshot, memScanners[tagKeyID])
 		if err != nil {
 			return err
 		}
@@ -494,18 +506,9 @@ func (fi *forwardIndex) getGroupingScanners(
 	tagKeyID tag.KeyID,
 	seriesIDs *roaring.Bitmap,
 	snapshot version.Snapshot,
+	memScanners []flow.GroupingScanner,
 ) ([]flow.GroupingScanner, error) {
-	var result []flow.GroupingScanner
-	// read data from mem
-	fi.loadSeriesIDsInMem(tagKeyID, func(tagIndex *imap.IntMap[uint32]) {
-		// check reader if it has series ids(after filtering)
-		finalSeriesIDs := roaring.FastAnd(seriesIDs, tagIndex.Keys())
-		if finalSeriesIDs.IsEmpty() {
-			// not found
-			return
-		}
-		result = append(result, &memGroupingScanner{forward: tagIndex, withLock: fi.withLock})
-	})
+	result := memScanners
 
 	// read data from kv store
 	// try to get tag key id from kv store
@@ -525,6 +528,20 @@ func (fi *forwardIndex) getGroupingScanners(
 		result = append(result, scanners...)
 	}
 	return result, nil
+}
+
+// getMemGroupingScanners returns the grouping scanner list of memory store for tag key, need match series ids
+func (fi *forwardIndex) getMemGroupingScanners(tagKeyID tag.KeyID, seriesIDs *roaring.Bitmap) (result []flow.GroupingScanner) {
+	fi.loadSeriesIDsInMem(tagKeyID, func(tagIndex *imap.IntMap[uint32]) {
+		// check reader if it has series ids(after filtering)
+		finalSeriesIDs := roaring.FastAnd(seriesIDs, tagIndex.Keys())
+		if finalSeriesIDs.IsEmpty() {
+			// not found
+			return
+		}
+		result = append(result, &memGroupingScanner{forward: tagIndex, withLock: fi.withLock})
+	})
+	return result
 }
 
 // loadSeriesIDsInMem loads series ids from mutable/immutable store
